@@ -16,7 +16,9 @@
 (* entries that were written, strict or not.  dump() of that WatchFile is  *)
 (* the normal form (version line, one opts line, one line per entry,       *)
 (* quotes exactly when an option contains a blank); parsing the dump gives *)
-(* an equal WatchFile and dumping again the identical text.  Without a     *)
+(* an equal WatchFile and dumping again the identical text (as long as no  *)
+(* list of options holds both an option with a '"' and one with a blank:   *)
+(* the format cannot express that).  Without a                             *)
 (* version line as first logical line from_lines raises MissingVersion     *)
 (* (None when there is no logical line at all); an opts= without options,  *)
 (* an unterminated quote or a non-numeric version raise ValueError; a      *)
@@ -416,7 +418,11 @@ Spec == Init /\ [][Next]_vars
 
 Expected == Res("ok", wver, wopts, wents, FALSE)
 InDom    == IsDoc /\ wzone = "dom"
-RtDom    == InDom /\ ~(PPKnown /\ wpp)
+\* the format has no escape for '"': a list of options that needs quotes (some option contains a blank) cannot hold
+\* an option with a '"' (the stray quotes of test_parse_weird_quotes are read, but such a list is outside RoundTrip)
+QuoteClashIn(o) == LET t == WfJoin(o, CM) IN (\E i \in 1..Len(t) : t[i] = QT) /\ (\E i \in 1..Len(t) : IsSp(t[i]))
+QuoteClash == QuoteClashIn(wopts) \/ \E i \in 1..Len(wents) : QuoteClashIn(wents[i].o)
+RtDom    == InDom /\ ~(PPKnown /\ wpp) /\ ~QuoteClash
 
 TypeOK == /\ wver \in Vers /\ wzone \in {"dom", "glue", "inner"} /\ wn \in 0..MaxItems
           /\ wvpos \in 1..Len(wlines) /\ \A i \in 1..Len(wlines) : PBranch(wlines[i]) \in Branches
@@ -478,7 +484,7 @@ BadOK == BadDom => \A k \in BadKinds : BadApplies(k) =>
 \* emission for the harness (spec -> code)
 
 EmitCase == (Emit /\ IsDoc) => PrintT(<<"CASE", ToJson(
-   [ver |-> wver, lines |-> wlines, zone |-> wzone, pp |-> wpp, n |-> wn, f1 |-> wf1, segs |-> wsegs, vpos |-> wvpos,
+   [ver |-> wver, lines |-> wlines, zone |-> wzone, pp |-> wpp, n |-> wn, f1 |-> wf1, segs |-> wsegs, vpos |-> wvpos, qc |-> QuoteClash,
     exp |-> IF InDom THEN Expected ELSE Parse(wlines, FALSE),
     dump |-> IF InDom THEN DumpLines(wver, wopts, wents) ELSE <<>>,
     nover |-> NoVersionRes])>>)
